@@ -118,6 +118,7 @@ type ex4Tx struct {
 }
 
 type ex4Op struct {
+	writeFailed bool // a WriteTo of this operation failed (expired write deadline)
 	kind           string // request, discover, requestFromOffer, renew, release
 	invSeq, retSeq int
 	invT, retT     time.Duration
@@ -208,8 +209,17 @@ func (st *ex4State) start() {
 		st.net = NewNet(s)
 		// client side
 		var cc net.PacketConn
+		// a write deadline the client set itself can expire under the stalled-task fault: the
+		// operation then had a socket failure, which the failure rules must know
+		onWriteFail := func([]byte, net.Addr) {
+			s.Fault("write-deadline-expired")
+			if st.cur != nil {
+				st.cur.writeFailed = true
+			}
+		}
 		if st.raw {
 			st.cconn = NewConn(s, "link", &packet.Addr{})
+			st.cconn.OnWriteFail = onWriteFail
 			cc = nclient4.NewBroadcastUDPConn(st.cconn, &net.UDPAddr{Port: 68})
 			st.cconn.OnWrite = func(b []byte, to net.Addr) {
 				// the link: unwrap the frame with the reference NIC
@@ -227,6 +237,7 @@ func (st *ex4State) start() {
 			}
 		} else {
 			st.cconn = NewConn(s, "cconn", &net.UDPAddr{IP: net.IPv4zero, Port: 68})
+			st.cconn.OnWriteFail = onWriteFail
 			cc = st.cconn
 			st.cconn.OnWrite = func(b []byte, to net.Addr) {
 				ua, _ := to.(*net.UDPAddr)
@@ -847,7 +858,21 @@ func (st *ex4State) oracle(v *vio) {
 			if want == nil {
 				want = &net.UDPAddr{IP: net.IPv4bcast, Port: 67}
 			}
+			// A renewal may also go to the lease's server directly: the statement says what the
+			// renewal REQUEST looks like ("unicast" is the cleared broadcast flag, judged by
+			// X-renew-broadcast), not where the datagram is sent, and RFC 2131 4.4.5 has a
+			// RENEWING client address its server.
+			var alt net.IP
+			if o.kind == "renew" && o.inLease != nil && o.inLease.ACK != nil {
+				if sid := o.inLease.ACK.Options.Get(dhcpv4.OptionServerIdentifier); len(sid) == 4 {
+					alt = net.IP(sid)
+				}
+			}
 			for j, tx := range o.txs {
+				if tx.dest != nil && alt != nil && tx.dest.IP.Equal(alt) && tx.dest.Port == 67 {
+					st.s.Probe("renewal-sent-to-the-leases-server")
+					continue
+				}
 				if tx.dest == nil || !tx.dest.IP.Equal(want.IP) || tx.dest.Port != want.Port {
 					v.add("X-dest", "%s: transmission %d went to %v, want the client's server address %v", name, j+1, tx.dest, want)
 					break
@@ -862,7 +887,7 @@ func (st *ex4State) oracle(v *vio) {
 		// no-response error, after the phase it was in has been transmitted the configured
 		// number of times on the configured schedule (the calls are made with a context that
 		// never ends, and this scenario injects no socket errors).
-		if o.returned && o.err != nil && !errors.As(o.err, &nk) && o.kind != "release" && len(o.txs) > 0 {
+		if o.returned && o.err != nil && !errors.As(o.err, &nk) && o.kind != "release" && len(o.txs) > 0 && !o.writeFailed {
 			phase := disc
 			if len(req) > 0 {
 				phase = req
